@@ -16,7 +16,18 @@ WIDTH = {1: 8, 5: 4}
 
 
 def _inline_pack_fmt(mod) -> Dict[str, Any]:
-    return {"_pack_fmt": (mod, mod.func("_pack_fmt"))}
+    out = {"_pack_fmt": (mod, mod.func("_pack_fmt"))}
+    # small private helpers called by the per-type encoder/decoder are part of the dispatch (an extracted helper must not
+    # change any verdict): inline them
+    for q in ("_preprocess_single", "Message._postprocess_single"):
+        for c in ast.walk(mod.func(q)):
+            if isinstance(c, ast.Call) and isinstance(c.func, ast.Name) and c.func.id.startswith("_") and mod.has(c.func.id) \
+                    and c.func.id not in ("_get_wrapper", "_preprocess_single", "_serialize_single") \
+                    and any(isinstance(x, ast.FunctionDef) for x in mod.get_all(c.func.id)):
+                h = mod.func(c.func.id)
+                if len(h.body) <= 8 and not any(isinstance(n, (ast.For, ast.While)) for n in ast.walk(h)):
+                    out[c.func.id] = (mod, h)
+    return out
 
 
 def _has_arith_on(s: Sym, leaf: Sym) -> bool:
@@ -1042,3 +1053,32 @@ def rule_M6(ctx, rule: str = "M6") -> None:
                         "is decoded into a wrong number instead of being rejected", f"M().parse(<{t} field cut after 2 bytes>)")
         else:
             ctx.proved(rule, f"fixed-payload-length[{t}]", loc)
+
+
+def rule_T6(ctx, rule: str = "T6") -> None:
+    """no value-keyed memoisation on the codec path: a cache keyed by == / hash conflates 0.0 with -0.0 and 1 with True and 1.0"""
+    mod = ctx.repo.mod(M_INIT)
+    cached = []
+    for q, fn in mod.functions():
+        for d in getattr(fn, "decorator_list", []):
+            txt = ast.unparse(d)
+            if "lru_cache" in txt or txt.split("(")[0].split(".")[-1] in ("cache", "memoize", "cached"):
+                cached.append((q, fn))
+    bad = []
+    for q, fn in cached:
+        params = [a.arg for a in fn.args.args]
+        # is it called with a field value (a parameter named value/item/v of an encoder/decoder function)?
+        for cq, caller in mod.functions():
+            for c in ast.walk(caller):
+                if isinstance(c, ast.Call) and ast.unparse(c.func).split(".")[-1] == q.split(".")[-1]:
+                    args = [ast.unparse(a) for a in c.args] + [ast.unparse(k.value) for k in c.keywords]
+                    if any(a in ("value", "item", "v", "k", "decoded") for a in args):
+                        bad.append((q, cq, c))
+    if bad:
+        q, cq, c = bad[0]
+        ctx.refuted(rule, "no-value-keyed-cache-on-codec-path", q, mod.loc(c),
+                    f"{q} is memoised (cache keyed by equality/hash of its arguments) and {cq} calls it with a field value: 0.0 == -0.0 and 1 == True == 1.0 share one cache entry, "
+                    "so the bytes produced for a value depend on which equal-but-distinct value was encoded first in the process",
+                    "bytes(M(xs=[0.0])) then bytes(M(xs=[-0.0]))")
+    else:
+        ctx.proved(rule, "no-value-keyed-cache-on-codec-path", M_INIT, f"{len(cached)} memoised functions, none on the value path")
